@@ -234,6 +234,13 @@ func (OracleC08) failure(x *Exec, op *Op, pre *Snap, msg string) {
 				x.KnownFinding("F-C05a")
 				return
 			}
+			if r.S == op.V && !r.Completion.Before(pre.Time) && (x.PrecisionCollapsed(r.Denom) || degenerateAsset(pre, r.Denom) || orphanedValidator(pre, r.Denom) || pre.Assets[r.Denom].TotalValidatorShares.IsNegative()) {
+				// listed finding F-C04a: the asset has a staked total but no (or a dust-negative) share
+				// total — validator values computed from it are zero or meaningless
+				x.KnownFinding("F-C04a")
+				x.Label("c08:collapsed-asset-in-callback")
+				return
+			}
 		}
 	}
 	// Listed finding F-C04a (consequence): once an asset's accounting has collapsed (staked
